@@ -81,7 +81,7 @@ def gen_read_cases(ctx):
     for _ in range(60 if quick else 1200):
         server = rng.random() < 0.6
         m = rng.choice([1, 2, 3, 4, 5, 8, 16, 64, 300])
-        h = bytes(rng.getrandbits(8) for _ in range(rng.choice([1, 2, m]) if m < 32 else 32))
+        h = bytes(rng.getrandbits(8) for _ in range(min(m, rng.choice([1, 2, m])) if m < 32 else 32))
         script = []
         for _ in range(rng.randrange(1, 9)):
             r = rng.random()
@@ -107,6 +107,9 @@ def gen_read_cases(ctx):
         if server:
             script.insert(1, msg(h, role="hb"))
         cases.append(read_case(server, 65535, h, script, [65534, 1, 70000, 65535, 5, 39999, 2, 1, 1]))
+    # a message longer than the maximum message size (outside the property's domain; model and code must still agree)
+    cases.append(read_case(True, 4, b"\xaa\xbb", [msg(b"\x01\x02"), msg(b"\x01\x02\x03\x04\x05"), msg(b"\x06")], [4, 4, 4, 4]))
+    cases.append(read_case(False, 4, b"\xaa\xbb", [msg(b"\x01\x02"), msg(b"\x01\x02\x03\x04\x05"), msg(b"\x06")], [2, 9, 3, 4, 4]))
     # candidate 13(b): a peer data message equal to the heartbeat payload
     h = b"6v3jyM521GkBo1lsMyVLcRyzdZ7FKEM3"
     cases.append(read_case(True, 64, h, [msg(b"before"), msg(h, role="data"), msg(b"after", 50)], [64] * 6))
@@ -201,7 +204,11 @@ def run_reads(ctx):
                   nontrivial=True, kind=kind)
         if dup:
             ctx.count(("dup", c["server"]), kind="read/data-equals-heartbeat")
-        v = read_oracle(c, reads)
+        oversize = any(len(m["d"]) > c["mx"] for m in c["script"])
+        if oversize:
+            ctx.count(("oversize", len(terms)), nontrivial=False, kind="read/oversize-message")
+        # the property speaks about messages that fit the maximum message size
+        v = None if oversize else read_oracle(c, reads)
         if v is not None:
             cls, text = v
             key = "read/%s/%s" % ("server" if c["server"] else "client", cls)
@@ -791,8 +798,8 @@ def lb_eval(c, r):
             nd = sum(1 for d in c["dials"] if d["sec"] == a["sec"])
             if nd >= 1 and ar["err"] != 0:
                 probs.append(("accept-failed", "accept %d for secret %d with a matching dial failed: %s" % (i, a["sec"], ar.get("errtext", "")), True))
-        if a["cancel_ms"] >= 0 and ar["err"] == 3 and ar["elapsed_ms"] > a["cancel_ms"] + 1500:
-            probs.append(("cancel-not-prompt", "accept %d returned %.0f ms after start, cancelled at %d ms" % (i, ar["elapsed_ms"], a["cancel_ms"]), True))
+        if a["cancel_ms"] >= 0 and ar["err"] == 3 and ar["elapsed_ms"] > 1500:
+            probs.append(("cancel-not-prompt", "accept %d returned %.0f ms after its context was cancelled" % (i, ar["elapsed_ms"]), True))
     used = set(a["sec"] for a in c["accs"])
     for i, (d, dr) in enumerate(zip(c["dials"], r["dials"])):
         if d["sec"] not in used and dr["ok"]:
